@@ -6,8 +6,10 @@ import (
 	"io"
 	"net/http"
 	"net/http/httptest"
+	"os"
 	"regexp"
 	"sort"
+	"strconv"
 	"strings"
 	"time"
 
@@ -105,7 +107,14 @@ func r3Scenarios(tier string) []*vx.Scenario {
 		b = 2
 	}
 	down := []string{"transport close", "transport error", "ping timeout", "forced close", "forced server close"}
+	cb := b + 1
+	if v := os.Getenv("C06_CB"); v != "" {
+		cb, _ = strconv.Atoi(v)
+	}
 	return []*vx.Scenario{
+		connectingScenario("Server.Close", func(srv *sio.Server, mgr *sio.Manager, sock sio.ClientSocket) { srv.Close() }, true, cb),
+		connectingScenario("Manager.Close", func(srv *sio.Server, mgr *sio.Manager, sock sio.ClientSocket) { mgr.Close() }, false, cb),
+		connectingScenario("ClientSocket.Disconnect", func(srv *sio.Server, mgr *sio.Manager, sock sio.ClientSocket) { sock.Disconnect() }, false, cb),
 		r3Scenario("Server.Close", func(srv *sio.Server, mgr *sio.Manager, sock sio.ClientSocket, link *vrig.Inproc, l *pairLog) {
 			vsched.GoQuiet("server-close", func() { srv.Close() })
 		}, []string{"server shutting down", "forced close", "forced server close"}, append([]string{"io server disconnect"}, down...), true, b),
@@ -126,6 +135,92 @@ func r3Scenarios(tier string) []*vx.Scenario {
 			vsched.GoQuiet("manager-close", func() { mgr.Close() })
 		}, append([]string{"server shutting down", "client namespace disconnect"}, down...), append([]string{"io client disconnect", "io server disconnect"}, down...), true, b),
 	}
+}
+
+// connectingScenario: the cause strikes while the connection is still being set up (Engine.IO handshake,
+// CONNECT packet, admission): the cause is issued right after Connect() has returned. Whatever the outcome,
+// each connected period of the client socket is followed by exactly one disconnect report, the server socket
+// reports at most one, and nothing is left on the server.
+func connectingScenario(name string, cause func(srv *sio.Server, mgr *sio.Manager, sock sio.ClientSocket), serverDown bool, bound int) *vx.Scenario {
+	sc := &vx.Scenario{Name: "sio-sio/while-connecting/" + name, Bound: bound, Horizon: 3 * time.Minute, Shards: 8}
+	sc.Body = func(e *vsched.Exec) func() vx.Result {
+		scfg := &sio.ServerConfig{}
+		scfg.EIO.PingInterval = 10 * time.Minute // no heartbeat traffic inside the horizon
+		scfg.EIO.PingTimeout = 10 * time.Minute
+		srv, mgr, _ := vrig.NewSioPair(scfg, nil)
+		l := &pairLog{}
+		// handlers registered in the middleware: before the CONNECT reply
+		srv.Use(func(s sio.ServerSocket, h *sio.Handshake) any {
+			s.OnDisconnect(func(r sio.Reason) { l.v.Do(func() { l.srvLog = append(l.srvLog, "disconnect:"+string(r)) }) })
+			return nil
+		})
+		srv.OnConnection(func(s sio.ServerSocket) {})
+		sock := mgr.Socket("/", nil)
+		sock.OnConnect(func() { l.v.Do(func() { l.cliLog = append(l.cliLog, "connect") }) })
+		sock.OnDisconnect(func(r sio.Reason) { l.v.Do(func() { l.cliLog = append(l.cliLog, "disconnect:"+string(r)) }) })
+		// Connect() has returned (it only starts the connection) when the cause is issued
+		sock.Connect()
+		vsched.GoQuiet("cause", func() { cause(srv, mgr, sock) })
+		if !serverDown {
+			// A client-side call issued this early may legitimately be overtaken by the connection it was
+			// meant to stop (Connect is asynchronous; whether such a call must win is not C06's subject).
+			// The server is therefore shut down for good later on: whatever state the race left behind
+			// must be cleaned up and reported by then.
+			vsched.GoQuiet("final-server-close", func() {
+				vsched.Sleep(time.Minute)
+				srv.Close()
+			})
+		}
+		return func() vx.Result {
+			var r vx.Result
+			r.Outcome = fmt.Sprint(l.srvLog, l.cliLog)
+			key := func(w string) string { return "sio<->sio while connecting: " + w + " (" + name + ")" }
+			if len(l.srvLog) > 1 {
+				r.Violate(key("server disconnect reported more than once"), "%v", l.srvLog)
+			}
+			// per connected period of the client socket: exactly one disconnect report. (A report for a
+			// socket that has not connected yet - the manager was closed while the CONNECT was pending -
+			// is what the reference client does as well and is not judged: the statement ranges over
+			// sockets that had connected.)
+			up, reports := false, 0
+			for _, x := range l.cliLog {
+				if x == "connect" {
+					if up && reports == 0 {
+						r.Violate(key("client connected again without the previous end having been reported"), "%v", l.cliLog)
+					}
+					up, reports = true, 0
+					continue
+				}
+				if up {
+					reports++
+					if reports > 1 {
+						r.Violate(key("client disconnect reported more than once for one connection"), "%v", l.cliLog)
+					}
+				}
+			}
+			if sock.Connected() {
+				r.Violate(key("client socket still in the connected state after the connection ended"), "client log %v; server log %v", l.cliLog, l.srvLog)
+			} else if up && reports == 0 {
+				// the socket's state is right, but the last thing the application heard is "connect"
+				n := len(l.cliLog)
+				if n >= 2 && strings.HasPrefix(l.cliLog[n-2], "disconnect:") {
+					r.Violate(key("connect handler invoked after the disconnect handler that ended the same connection"), "client log %v; server log %v", l.cliLog, l.srvLog)
+				} else {
+					r.Violate(key("client saw the connection come up but was never told that it ended"), "client log %v; server log %v", l.cliLog, l.srvLog)
+				}
+			}
+			nsp := srv.Of("/")
+			rooms, sids, _ := adapter.VerifDump(nsp.Adapter())
+			if n := len(nsp.Sockets()); n != 0 || len(rooms) != 0 || len(sids) != 0 {
+				r.Violate(key("socket left on the server"), "%d sockets listed, adapter rooms=%v sids=%v; server log %v client log %v", n, rooms, sids, l.srvLog, l.cliLog)
+			}
+			if ids := srv.VerifEIOSessionIDs(); len(ids) != 0 {
+				r.Violate(key("Engine.IO session alive on a closed server"), "%v", ids)
+			}
+			return r
+		}
+	}
+	return sc
 }
 
 // ---------------------------------------------------------------- Engine.IO level: byte cuts
